@@ -947,7 +947,12 @@ def register(M):
             return mk(op, *[deref_arg(ev, a) for a in args])
         return m
 
-    M.table["core::str::<impl str>::trim"] = s1("trim")
+    def trim(ev, fr, prog, fty, args, cx):
+        v = deref_arg(ev, args[0])
+        if v.op == "trim":
+            return v
+        return mk("trim", v)
+    M.table["core::str::<impl str>::trim"] = trim
     M.table["core::str::<impl str>::trim_start"] = s1("trim_start")
     M.table["core::str::<impl str>::trim_end"] = s1("trim_end")
     M.table["core::str::<impl str>::lines"] = s1("lines")
@@ -1002,6 +1007,8 @@ def register(M):
         r = ev.resolve_trait_method("std::str::FromStr", "from_str", key)
         if r is not None and ev.prog.body(r[0]) is not None and not key.startswith("param:"):
             body = ev.prog.body(r[0])
+            if ev.opaque_defs and (r[0] in ev.opaque_defs or body["path"] in ev.opaque_defs):
+                return mk("call", "summary:parse:" + key.split("::")[-1], s)
             return ev.call_body(ev.prog.owner_program(r[0]), body, [s], genv=r[1])
         okc = mk("parses", key, s)
         return tm.ite(okc, tm.ok(mk("parsed", key, s)), tm.err(mk("parse_error", key, s)))
